@@ -137,6 +137,30 @@ impl S3 {
         s
     }
 
+    /// public calls that run their own transaction(s) (`set_beta`, `set_betas`); `&self`: usable as the unit of work of
+    /// a thread in hcsched (C07).  `None` = not such a call / parse error
+    pub fn run_call(&self, toks: &[&str]) -> Option<String> {
+        match toks {
+            ["setb", i, x, v] => {
+                let (x, v) = (d(x)?, d(v)?);
+                let r = catch_unwind(AssertUnwindSafe(|| match *i {
+                    "0" => self.map.set_beta::<0>(x, v),
+                    "1" => self.map.set_beta::<1>(x, v),
+                    "2" => self.map.set_beta::<2>(x, v),
+                    "3" => self.map.set_beta::<3>(x, v),
+                    _ => panic!(),
+                }));
+                Some(if r.is_ok() { "ok".into() } else { "panic".into() })
+            }
+            ["setbs", x, b0, b1, b2, b3] => {
+                let (Some(x), Some(b0), Some(b1), Some(b2), Some(b3)) = (d(x), d(b0), d(b1), d(b2), d(b3)) else { return None };
+                let r = catch_unwind(AssertUnwindSafe(|| self.map.set_betas(x, [b0, b1, b2, b3])));
+                Some(if r.is_ok() { "ok".into() } else { "panic".into() })
+            }
+            _ => None,
+        }
+    }
+
     /// the body of `endtx`: all `ops` in one `atomically_with_err` block (callable from several threads)
     pub fn run_tx(&self, ops: &[Vec<String>]) -> String {
         let r = catch_unwind(AssertUnwindSafe(|| {
@@ -496,17 +520,7 @@ impl S3 {
             return "queued".into();
         }
         match toks {
-            ["setb", i, x, v] => {
-                let (Some(x), Some(v)) = (d(x), d(v)) else { return "bad-op".into() };
-                let r = catch_unwind(AssertUnwindSafe(|| match *i {
-                    "0" => self.map.set_beta::<0>(x, v),
-                    "1" => self.map.set_beta::<1>(x, v),
-                    "2" => self.map.set_beta::<2>(x, v),
-                    "3" => self.map.set_beta::<3>(x, v),
-                    _ => panic!(),
-                }));
-                if r.is_ok() { "ok".into() } else { "panic".into() }
-            }
+            ["setb", ..] | ["setbs", ..] => self.run_call(toks).unwrap_or_else(|| "bad-op".into()),
             ["fault", k] => {
                 let Ok(k) = k.parse::<u64>() else { return "bad-op".into() };
                 attrs::FAULT.with(|f| f.set(k));
